@@ -8,6 +8,7 @@ VERIF = os.path.dirname(os.path.dirname(os.path.abspath(__file__)))
 # properties whose model consumes atoms read from the source by tools/gen_source_lean.py
 SOURCE_ATOMS = {
     'C05': '(whether `disable_recording()` discards the recording in flight - fix F15)',
+    'C08': '(whether `_create_new_player_process` gives every worker queues of its own - fix F9)',
     'C10': '(how `limit` is tested in the in-memory and file based cassettes; how the file cassette cuts the id out of a listed file name - fix F14; the S3 window operators)',
     'C14': '(the operator table of `_operator_filter`, whether its comparisons are guarded by `except TypeError` and whether the pattern branch tests `isinstance(recorded_value, str)` first - fix F8)',
     'C15': '(the S3 key layout constants)',
